@@ -1,9 +1,9 @@
 (* C10 -- draining iterators obey the iterator protocol at every step.
-   PARTIAL: proved for Drain and Splice (one representation); IntoIter and DrainFilter are tied by
-   the correspondence run (reference cursor on the implementation side). *)
+   Proved for Drain, Splice (one representation) and IntoIter; PARTIAL: DrainFilter is tied by the
+   correspondence run (reference oracle on the implementation side). *)
 From Coq Require Import ZArith List Bool Lia.
 From MV Require Import Ast Eval Scalar Machine.
-From MV.Proofs Require Import Arith Logic Prim View OpsLocal Guards Drops DrainIt.
+From MV.Proofs Require Import Arith Logic Prim View OpsLocal Guards Drops DrainIt IntoIt.
 Import ListNotations.
 Open Scope Z_scope.
 
@@ -76,3 +76,25 @@ Theorem C10_dropping_a_drain_restores_prefix_and_suffix :
 Proof. intros cfg Hc Hd ncap tmp. exact (drain_drop_machine cfg Hc Hd ncap tmp). Qed.
 
 Print Assumptions C10_dropping_a_drain_restores_prefix_and_suffix.
+
+(* IntoIter: ANY interleaving of next / next_back of ANY length follows the double-ended cursor over
+   the elements not yet yielded; the embedded length -- what len() and size_hint() report -- is always
+   exactly the number of elements left *)
+Theorem C10_into_iter_any_interleaving :
+  forall cfg, cfg_ok cfg -> forall steps s it b bl off p,
+  into_inv cfg s it b bl off p ->
+  exists s' it' bl' p',
+    into_steps cfg it steps s = (Val (fst (cursor (remaining bl p) steps), it'), s') /\
+    into_inv cfg s' it' b bl' off p' /\
+    remaining bl' p' = snd (cursor (remaining bl p) steps) /\
+    h_len bl' = Z.of_nat (List.length (snd (cursor (remaining bl p) steps))).
+Proof. use into_protocol. Qed.
+
+Theorem C10_into_iter_as_slice_exact :
+  forall cfg, cfg_ok cfg -> forall s it b bl off p,
+  into_inv cfg s it b bl off p ->
+  NoDup (remaining bl p) -> (forall e, In e (remaining bl p) -> tracked cfg = false \/ ledger s e = Live) ->
+  into_as_slice cfg it s = (Val (remaining bl p), s).
+Proof. use into_as_slice_spec. Qed.
+
+Print Assumptions C10_into_iter_any_interleaving.
